@@ -107,6 +107,10 @@ def epk_jwk(pub):
 
 def epk_load(j):
     if j["kty"] == "EC":
+        size = (CURVES[j["crv"]].key_size + 7) // 8
+        if len(b64d(j["x"])) != size or len(b64d(j["y"])) != size:
+            # RFC 7518 §6.2.1.2 / 6.2.1.3: the coordinate octet string MUST be the full size of a coordinate for the curve
+            raise ValueError("epk coordinate is not the full size of the curve")
         return ec.EllipticCurvePublicNumbers(int.from_bytes(b64d(j["x"]), "big"), int.from_bytes(b64d(j["y"]), "big"), CURVES[j["crv"]]).public_key()
     return (x25519.X25519PublicKey if j["crv"] == "X25519" else x448.X448PublicKey).from_public_bytes(b64d(j["x"]))
 
